@@ -1,6 +1,7 @@
 """Check runner: runs the rules registered for a property, applies the known-findings and
 audited-safe tables, prints VIOLATION / KNOWN-FINDING lines and writes the evidence file."""
 import json
+import re
 import os
 import sys
 import time
@@ -128,17 +129,41 @@ def evaluate(prop, tier, rules, repo, configs=None):
     violations = []
     kf_present = {}
     audited_used = []
+    # A site key ends in an ordinal (`#3`) when a function has several sites with the same signature; the ordinal
+    # follows source order, so reordering statements renumbers them.  Sites are therefore matched exactly first and
+    # then per (function | rule | signature) *group*: a group is covered when it has no more members than the
+    # tables list for it.  A new site with a listed signature in a listed function is still reported once the
+    # group outgrows the tables.
+    def base(k):
+        return re.sub(r"#\d+$", "", k)
+    listed = {}
+    for k in list(kf_by_key) + list(audited_by_key):
+        listed.setdefault(base(k), []).append(k)
+    pending = {}
+    used_exact = set()
     for inst in rep.instances:
         if inst["verdict"] != "violation":
             continue
-        if inst["key"] in kf_by_key:
+        if inst["key"] in kf_by_key or inst["key"] in audited_by_key:
+            used_exact.add(inst["key"])
+    for inst in rep.instances:
+        if inst["verdict"] != "violation":
+            continue
+        k = inst["key"]
+        if k not in kf_by_key and k not in audited_by_key:
+            free = [x for x in listed.get(base(k), []) if x not in used_exact]
+            if free:
+                used_exact.add(free[0])
+                inst["matched_as"] = free[0]
+                k = free[0]
+        if k in kf_by_key:
             inst["verdict"] = "known-finding"
-            f = kf_by_key[inst["key"]]
+            f = kf_by_key[k]
             kf_present.setdefault(f["id"], f)
-        elif inst["key"] in audited_by_key:
+        elif k in audited_by_key:
             inst["verdict"] = "audited-safe"
-            inst["audit_reason"] = audited_by_key[inst["key"]]["reason"]
-            audited_used.append(inst["key"])
+            inst["audit_reason"] = audited_by_key[k]["reason"]
+            audited_used.append(k)
         else:
             violations.append(inst)
     return rep, ctx, violations, kf_present, audited_used
